@@ -30,6 +30,9 @@ def transparent(n):
 def type_value(de, length='min', variant=0, shape=None):
     dt, mn, mx = G.dataele()[de]
     n = max(mn, 1) if length == 'min' else mx
+    if shape == 'lower' and dt == 'AN':
+        # lower-case letters: legal in the extended character set only (the default)
+        return ('a' if variant == 0 else 'b') * n
     if shape == 'signed':
         # legal but unusual spellings: a real with sign and bare fraction (sign and point do not count towards
         # the length), a string made of punctuation
@@ -391,7 +394,7 @@ def emit(n, plan, need, doc, lstack, counts, force=False):
     if n.usage == 'N':
         return
     k = plan.get('repeat', {}).get(n.path, 1 if (n.usage == 'R' or n.path in need or plan.get('all')) else 0)
-    if k > G.maxrep(n):
+    if k > G.maxrep(n) and not plan.get('overflow'):
         raise Ungeneratable('repeat %d > max %d at %s' % (k, G.maxrep(n), n.path))
     for _ in range(k):
         counts[n.path] = counts.get(n.path, 0) + 1
@@ -720,6 +723,7 @@ def plans_d1(entry):
     yield ('two-sets', {'sets': 2})
     yield ('two-groups', {'groups': 2})
     yield ('two-interchanges', {'interchanges': 2})
+    yield ('lower', {'shape': 'lower', 'all': True, 'fill_all': True})
     yield ('signed', {'shape': 'signed'})
     yield ('signed-all-filled', {'shape': 'signed', 'all': True, 'fill_all': True})
     yield ('signed-maxlen', {'shape': 'signed', 'length': 'max', 'all': True, 'fill_all': True})
